@@ -16,14 +16,14 @@ theorem wt_mHold (t k) : (Rd.mHold t k).wt = (match k with | none => 5 | some n 
 
 theorem wt_selReady_ge (r : Res) : 3 ≤ (Rd.selReady r).wt := by
   rcases r with (w | _ | _)
-  · rcases w with (n | n | n | n | _ | _)
+  · rcases w with (n | n | n | n | _ | _ | _)
     all_goals simp [Rd.wt]
     all_goals omega
   all_goals simp [Rd.wt]
 
 theorem wt_afterTake_lt (d : Dir) (r : Res) : (afterTake d r).wt < (Rd.selReady r).wt := by
   rcases r with (w | _ | _)
-  · rcases w with (n | n | n | n | _ | _)
+  · rcases w with (n | n | n | n | _ | _ | _)
     all_goals simp [Rd.wt, afterTake]
   all_goals simp [Rd.wt, afterTake]
 
@@ -179,13 +179,13 @@ def Good (s : Sys) : Prop :=
 
 theorem afterTake_ne_gone (d : Dir) (r : Res) : afterTake d r ≠ .gone := by
   rcases r with (w | _ | _)
-  · rcases w with (n | n | n | n | _ | _)
+  · rcases w with (n | n | n | n | _ | _ | _)
     all_goals simp [afterTake]
   all_goals simp [afterTake]
 
 theorem afterTake_holdsDest (d t : Dir) (r : Res) : (afterTake d r).holdsDest t = false := by
   rcases r with (w | _ | _)
-  · rcases w with (n | n | n | n | _ | _)
+  · rcases w with (n | n | n | n | _ | _ | _)
     all_goals simp [afterTake, Rd.holdsDest]
   all_goals simp [afterTake, Rd.holdsDest]
 
@@ -472,7 +472,7 @@ theorem progress_or_f10c {s : Sys} (hg : Good s) (ht : termed s = true) (hu : un
 
 theorem terminal_afterTake (d : Dir) (r : Res) : (afterTake d r).terminal = (Rd.selReady r).terminal := by
   rcases r with (w | _ | _)
-  · rcases w with (n | n | n | n | _ | _)
+  · rcases w with (n | n | n | n | _ | _ | _)
     all_goals simp [afterTake, Rd.terminal]
   all_goals simp [afterTake, Rd.terminal]
 
@@ -496,7 +496,7 @@ theorem unstalled_proc {s s' : Sys} {l : Label} (hp : l.isProc = true) (h : step
 
 theorem noPeer_afterTake (d : Dir) (r : Res) (h : (Rd.selReady r).noPeer d = true) : (afterTake d r).noPeer d = true := by
   rcases r with (w | _ | _)
-  · rcases w with (n | n | n | n | _ | _)
+  · rcases w with (n | n | n | n | _ | _ | _)
     all_goals simp_all [afterTake, Rd.noPeer]
   all_goals simp [afterTake, Rd.noPeer]
 
